@@ -223,6 +223,25 @@ func decoy(o Op) (Op, bool) {
 func Build(a *ref.AP, t *sim.Tape) (mq.Packet, []Op, error) {
 	p := New(a.Type)
 	ops := OpsFor(a)
+	if t != nil && a.Type == ref.Publish && t.Bool(1, 4) {
+		// the convenience constructor mq.Pub(qos, topic, payload) instead of
+		// NewPublish + three setters
+		p = mq.Pub(a.QoS(), string(a.Topic), string(a.Payload))
+		var rest []Op
+		for _, o := range ops {
+			if o.Kind != "qos" && o.Kind != "topic" && o.Kind != "payload" {
+				rest = append(rest, o)
+			}
+		}
+		ops = rest
+	}
+	if t != nil {
+		for i := range ops {
+			if ops[i].Kind == "userprops" && t.Bool(1, 3) {
+				ops[i].Flag = true // through the exported UserProperties field
+			}
+		}
+	}
 	if t != nil {
 		ops = Shuffle(ops, t)
 		if t.Bool(1, 3) {
